@@ -23,10 +23,12 @@ func (fc *FCtx) evalCall(e *ast.CallExpr, st *State) []Val {
 	name := fc.calleeName(e)
 	if fo := fc.calleeObj(e); fo != nil && strings.HasPrefix(fo.Name(), "emitEvent") && fo.Pkg() != nil && strings.HasPrefix(fo.Pkg().Path(), modPath) {
 		fc.drop("event helper " + fo.Name())
+		fc.evalDroppedArgs(e, st)
 		return nil
 	}
 	if isDroppedCall(name) {
 		fc.drop(name)
+		fc.evalDroppedArgs(e, st)
 		return nil
 	}
 	// receiver (method call) and arguments
@@ -123,6 +125,8 @@ var pureExternPrefixes = []string{
 	"github.com/cosmos/cosmos-sdk/x/auth/types.NewModuleAddress",
 	"(github.com/cosmos/cosmos-sdk/x/staking/types.ValidatorI).", "(github.com/cosmos/cosmos-sdk/x/staking/types.Validator).",
 	"github.com/cometbft/cometbft/crypto/tmhash.",
+	"(*github.com/bandprotocol/chain/v3/app.BandApp).AppCodec",
+	"(*github.com/cometbft/cometbft/abci/types.ResponseQuery).",
 }
 
 func isPureExtern(name string) bool {
@@ -833,4 +837,23 @@ func (fc *FCtx) evalRecvExpr(recvExpr ast.Expr, st *State) Val {
 		bt = f.Type()
 	}
 	return v
+}
+
+// evalDroppedArgs evaluates the arguments of a dropped (log/event/telemetry) call, because Go evaluates
+// them before the call and they can panic (index, slice, nil dereference). Sub-expressions outside the
+// subset are skipped.
+func (fc *FCtx) evalDroppedArgs(e *ast.CallExpr, st *State) {
+	for _, a := range e.Args {
+		func() {
+			defer func() {
+				if r := recover(); r != nil {
+					if _, ok := r.(OutOfSubset); ok {
+						return
+					}
+					panic(r)
+				}
+			}()
+			fc.evalMulti(a, st)
+		}()
+	}
 }
